@@ -30,15 +30,31 @@
      C04_bl_target, C04_literal_target) and of the encoder (C04_shift_amount, C04_addsub_immediate, C04_add_sp, C04_sub_sp,
      C04_mov_cmp_immediate, C04_load_store_offset, C04_push_pop_list, C04_ldm_stm_list, C04_low_registers,
      C04_branch_register, C04_special_register).
+   * every statement, accepted or rejected, from the CHARACTERS (section 6; Arm/AsmSpellSpec.v, Arm/AsmOutcomeViews.v,
+     Arm/AsmRejectText.v): `text_outcome` = tokenizer + parser + stmt_outcome.  The outcome (Emits i hws | Rejects d | Defers c,
+     never Panics) depends only on the mnemonic and on what the operand converters observe of each argument
+     (C04_outcome_same_operands); every spelling (`spells`: names of the same register, letter case of flags, numbers as any
+     literal expression tree, the memory operand forms, register lists in any order) is indistinguishable from what it spells
+     (C04_spelling_indistinguishable), so REJECTED statements are invariant under respelling too (C04_outcome_spelled) and, for
+     any separators incl. nested block comments / number spellings / redundant parentheses, the text has the outcome of the
+     canonical statement for its mnemonic and operand values (C04_text_outcome, C04_text_outcome_values).  All rejection
+     theorems lift through C04_text_outcome_tree: C04_text_rejects_operand_rule, _arity, _unknown_mnemonic, _first_failure.
+   * the Context (section 7; Asm/InstrOutcomeSpec.v, Asm/InstrOutcome.v): CtxModel.step on an instruction statement is
+     `instr_step` (C04_step_is_instr_step) and, by outcome (C04_outcome_is_context): Emits i hws -- exactly the little-endian
+     bytes of hws appended at the statement's address, or the capacity diagnostic of C13; Rejects d -- the diagnostic at the
+     statement's position, then nothing more (unknown mnemonic, encoder refused: Fatal) or, when a converter refused, the
+     placeholder: 0xBE bytes of the template's length and a task (Arm6M::assemble treats a diagnosed statement like a
+     deferred one; observed on the real assembler: `wfi r0;` leaves BE BE and reports the diagnostic); Defers -- placeholder + task.
    NOT proved here: (a) that assemble_stmt IS what src/arm6m/mod.rs does -- the model is compared with the real assembler by
-   the C04 / C19 correspondence streams; (b) invariance of REJECTED statements under respelling; (c) placing the bytes at
-   the statement's address in the image is C05's business.  Accepted although UNPREDICTABLE in the manual: LDM / STM with an
-   empty register list (DESIGN.md section 4: pinned by an existing test of trion, listed in the table). *)
+   the C04 / C19 correspondence streams; (b) placing the bytes at the statement's address in the image is C05's business.
+   Accepted although UNPREDICTABLE in the manual: LDM / STM with an empty register list (DESIGN.md section 4: pinned by an
+   existing test of trion, listed in the table). *)
 From Coq Require Import ZArith NArith List Bool String.
 From Trion Require Import Text.Types Text.ParseModel Text.Render Text.ParseProofs Text.ShowSpec Expr.I64 Expr.EvalModel Expr.Denote Expr.C08Sound
   Arm.Instr Arm.EncodeModel Arm.Armv6mSpec Arm.CodecCheck Arm.DisplayModel Arm.DisplayArgs Arm.AsmStmtModel Arm.AsmStmtProofs Arm.AsmEvalLink
   Arm.AsmOperands Arm.AsmRejects Arm.AsmSpelling Arm.AsmImmediates Arm.AsmRespell Arm.AsmNoWrap Arm.AsmText Bin.TextRoundtrip
-  Arm.AsmPostChecks Arm.AsmPostChecksStmt.
+  Arm.AsmPostChecks Arm.AsmPostChecksStmt Text.ShowNested Arm.AsmSpellSpec Arm.AsmOutcomeViews Arm.AsmRejectText.
+From Trion Require Mem.MapModel Asm.CtxSeg Asm.CtxModel Asm.SegProofs Asm.CtxNoPanic Asm.InstrOutcomeSpec Asm.InstrOutcome.
 Import ListNotations.
 Open Scope N_scope.
 
@@ -394,6 +410,166 @@ Theorem C04_special_register : forall ev local addr name sr ss r s,
      if negb (isSP r) && negb (isPC r) then emits_table out (Msr s r) else out = Rejects DEncode).
 Proof. exact special_register_checked. Qed.
 
+(* ------------------------------------------------------------------------------------------------------------------ *)
+(* 6. EVERY statement from its characters.  text_outcome lk local addr text = Some (stmt_outcome (ev_of lk) local addr name args)
+   when the tokenizer and parser models read the text as the one instruction statement `name args`, None otherwise.
+   The operand converters see an argument either as written (view_syn: which register / special register an identifier names,
+   whether it is `i` / `SY` up to letter case, the bits of a register list) or evaluated (view_ev: the number, the register, the
+   decomposed memory operand, the deferral cause, the error class); same_operands ev t args args' = no converter of the
+   template t tells args from args'.  Then the outcome is the same: instruction AND halfwords, diagnostic, deferral cause *)
+Theorem C04_outcome_same_operands : forall ev local addr name name' t args args',
+  template name = Some t -> template name' = Some t -> same_operands ev t args args' ->
+  stmt_outcome ev local addr name args = stmt_outcome ev local addr name' args'.
+Proof. exact outcome_same_operands. Qed.
+
+(* mnemonic identity: letter case, and the alias mnemonics of one instruction *)
+Theorem C04_mnemonic_identity : forall name name', upper_str name = upper_str name' -> template name = template name'.
+Proof. exact template_same_upper. Qed.
+Theorem C04_mnemonic_aliases : forall i name name', In (upper_str name) (mnemonic_names i) -> In (upper_str name') (mnemonic_names i) ->
+  template name = template name'.
+Proof. exact template_same_instr. Qed.
+
+(* a spelling a of the tree c (AsmSpellSpec.spells: any name of the same register / special register; another letter case of
+   an identifier the constant table does not tell apart; the number v as any expression tree, not a lone identifier, that
+   evaluates to v; [b + v] as [b' + e], [v + b] as [e + b'], for v >= 0 [b + v] as [e + b'], [b + 0] as [b'], [b + r] as
+   [b' + r']; register lists item by item or as any list naming the same set) is indistinguishable from c for EVERY converter *)
+Theorem C04_spelling_indistinguishable : forall lk c a, spells lk c a -> same_operand (ev_of lk) c a.
+Proof. exact spells_same. Qed.
+
+(* every literal expression tree with ideal value v (C07) spells the number v *)
+Theorem C04_literal_spelling : forall lk t v, literal_tree t = true -> ideal t = Val v -> spells lk (AConst v) t.
+Proof. exact literal_spells. Qed.
+
+(* hence the outcome -- of accepted AND of rejected statements -- does not depend on the spelling of mnemonic and operands *)
+Theorem C04_outcome_spelled : forall lk local addr name cname args cargs,
+  template name = template cname -> Forall2 (spells lk) cargs args ->
+  stmt_outcome (ev_of lk) local addr name args = stmt_outcome (ev_of lk) local addr cname cargs.
+Proof. exact outcome_spelled. Qed.
+
+(* characters -> argument trees: the statement written as the tokens ws (any rendering of its argument trees: redundant
+   parentheses; every number in any radix / digit case / leading zeros / as a character literal) with any separators seps
+   (white space, line breaks, line comments, block comments nested to any depth below 2^31) that do not fuse tokens has the
+   outcome of its argument trees.  Through this, every theorem about stmt_outcome above is a theorem about source text *)
+Theorem C04_text_outcome_tree : forall lk local addr name args ws seps,
+  RendStmts [EInstruction name args] (map wtok_val ws) -> Forall wtok_ok ws -> nwseps_ok ws seps ->
+  text_outcome lk local addr (showw ws seps) = Some (stmt_outcome (ev_of lk) local addr name args).
+Proof. exact text_outcome_tree. Qed.
+
+(* both: the text of ANY statement has the outcome of the canonical statement it spells *)
+Theorem C04_text_outcome : forall lk local addr name cname args cargs ws seps,
+  template name = template cname -> Forall2 (spells lk) cargs args ->
+  RendStmts [EInstruction name args] (map wtok_val ws) -> Forall wtok_ok ws -> nwseps_ok ws seps ->
+  text_outcome lk local addr (showw ws seps) = Some (stmt_outcome (ev_of lk) local addr cname cargs).
+Proof. exact text_outcome_spelled. Qed.
+
+(* ... by operand VALUES (ops : any list of AsmOperands.opspec -- any count, any kinds, any numbers): when each argument is a
+   documented way of writing the value (AsmOperands.writes, with the side conditions of AsmSpellSpec.denotes) the outcome is
+   that of `cname (map canon ops)`: registers by their canonical names, numbers as constants, [b + v], {..} in ascending
+   order.  The outcome is a function of the mnemonic and the operand values only *)
+Theorem C04_text_outcome_values : forall lk local addr name cname ops args ws seps,
+  template name = template cname -> Forall2 (denotes lk) ops args ->
+  RendStmts [EInstruction name args] (map wtok_val ws) -> Forall wtok_ok ws -> nwseps_ok ws seps ->
+  text_outcome lk local addr (showw ws seps) = Some (stmt_outcome (ev_of lk) local addr cname (map canon ops)).
+Proof. exact text_outcome_values. Qed.
+
+(* no text panics *)
+Theorem C04_text_never_panics : forall lk local addr text, text_outcome lk local addr text <> Some Panics.
+Proof. exact text_never_panics. Qed.
+
+(* the rejections from the characters.  The operand rule decides (C04_operand_rule_decides as text): operands read as the
+   operand values of i -- the rule holds: exactly i with the table's halfwords; it fails: a diagnostic, never bytes *)
+Theorem C04_text_operand_rule : forall lk local addr name i ops args ws seps,
+  In (upper_str name) (mnemonic_names i) -> In ops (direct_forms i addr) -> Forall2 (reads (ev_of lk)) ops args ->
+  RendStmts [EInstruction name args] (map wtok_val ws) -> Forall wtok_ok ws -> nwseps_ok ws seps ->
+  if operand_rule i then exists hws, armv6m_enc i = Some hws /\ text_outcome lk local addr (showw ws seps) = Some (Emits i hws)
+  else text_outcome lk local addr (showw ws seps) = Some (Rejects (if in_types i then DEncode else DValueRange)).
+Proof. exact text_operand_rule. Qed.
+
+Theorem C04_text_rejects_operand_rule : forall lk local addr name i ops args ws seps,
+  In (upper_str name) (mnemonic_names i) -> In ops (direct_forms i addr) -> Forall2 (reads (ev_of lk)) ops args ->
+  RendStmts [EInstruction name args] (map wtok_val ws) -> Forall wtok_ok ws -> nwseps_ok ws seps ->
+  operand_rule i = false ->
+  text_outcome lk local addr (showw ws seps) = Some (Rejects (if in_types i then DEncode else DValueRange)).
+Proof. exact text_rejects_operand_rule. Qed.
+
+(* ... with the operands WRITTEN in a documented way (opspec_ok: memory offsets non-negative and within i32) *)
+Theorem C04_text_rejects_operand_rule_written : forall lk local addr name i ops args ws seps,
+  In (upper_str name) (mnemonic_names i) -> In ops (direct_forms i addr) -> Forall opspec_ok ops -> Forall2 (writes lk) ops args ->
+  RendStmts [EInstruction name args] (map wtok_val ws) -> Forall wtok_ok ws -> nwseps_ok ws seps ->
+  operand_rule i = false ->
+  text_outcome lk local addr (showw ws seps) = Some (Rejects (if in_types i then DEncode else DValueRange)).
+Proof. exact text_rejects_operand_rule_written. Qed.
+
+(* one operand too many / too few (any number of them) *)
+Theorem C04_text_rejects_arity : forall lk local addr name t args ws seps,
+  template name = Some t -> List.length args <> List.length (kinds t) ->
+  RendStmts [EInstruction name args] (map wtok_val ws) -> Forall wtok_ok ws -> nwseps_ok ws seps ->
+  text_outcome lk local addr (showw ws seps) =
+    Some (Rejects (if Nat.ltb (List.length (kinds t)) (List.length args) then DTooMany else DNotEnough)).
+Proof. exact text_rejects_arity. Qed.
+
+Theorem C04_text_rejects_unknown_mnemonic : forall lk local addr name args ws seps,
+  template name = None ->
+  RendStmts [EInstruction name args] (map wtok_val ws) -> Forall wtok_ok ws -> nwseps_ok ws seps ->
+  text_outcome lk local addr (showw ws seps) = Some (Rejects DNotFound).
+Proof. exact text_rejects_unknown_mnemonic. Qed.
+
+(* right count: the first operand whose converter rejects it (C04_rejects_wrong_kind, _unknown_register, _out_of_range,
+   _regset_item say when) decides *)
+Theorem C04_text_rejects_first_failure : forall lk local addr name t args p k a d ws seps,
+  template name = Some t -> List.length args = List.length (kinds t) ->
+  nth_error (kinds t) p = Some k -> nth_error args p = Some a -> verdict (ev_of lk) local k a = VDiag d ->
+  (forall q kq aq, (q < p)%nat -> nth_error (kinds t) q = Some kq -> nth_error args q = Some aq -> verdict (ev_of lk) local kq aq = VAccept) ->
+  RendStmts [EInstruction name args] (map wtok_val ws) -> Forall wtok_ok ws -> nwseps_ok ws seps ->
+  text_outcome lk local addr (showw ws seps) = Some (Rejects d).
+Proof. exact text_rejects_first_failure. Qed.
+
+(* ------------------------------------------------------------------------------------------------------------------ *)
+(* 7. the Context.  From a state that satisfies the segment invariant of C13 (SegProofs.Inv) with the active segment s, when no
+   evaluation of an argument panics, the Context model's step on the instruction statement e = `name args` at (line, col) is
+   InstrOutcomeSpec.instr_step: room for 2 bytes, mnemonic lookup, operand processing at the address curr_addr s with the
+   Context's evaluator, then by the result -- see InstrOutcomeSpec.v (place, placeholder) *)
+Theorem C04_step_is_instr_step : forall dbg fs inc st s e name args,
+  SegProofs.Inv st -> CtxModel.active st = CtxModel.Active s -> e_val e = EInstruction name args -> CtxModel.first_panic st args = None ->
+  CtxModel.step dbg fs inc st e = InstrOutcomeSpec.instr_step st s (e_line e) (e_col e) name args.
+Proof. exact InstrOutcome.step_instr. Qed.
+
+(* a full segment (fewer than 2 bytes left): the capacity diagnostic of C13 at the statement's position, nothing else *)
+Theorem C04_full_segment : forall dbg fs inc st s e name args,
+  SegProofs.Inv st -> CtxModel.active st = CtxModel.Active s -> e_val e = EInstruction name args ->
+  CtxSeg.s_max s - CtxSeg.blen s < 2 ->
+  CtxModel.step dbg fs inc st e
+    = CtxModel.Ret (Some CtxModel.Fatal) (CtxModel.push_error st (e_line e) (e_col e) CtxModel.KInstrSegOverflow).
+Proof. exact InstrOutcome.step_instr_no_room. Qed.
+
+(* by outcome (ev_ok: the constant table of the current realm exists).  place st s f l c data = data appended to the active
+   segment at the statement's address curr_addr s, or -- beyond the segment's limit -- the diagnostic KInstrSegOverflow at
+   (f, l, c) with result Fatal and nothing written.  placeholder st s f l c ai = the partially converted template ai encoded:
+   as many 0xBE bytes as its encoding has are placed and the statement is scheduled as a local task (result Ok); a partial
+   template without encoding: the diagnostic DEncode, Fatal, nothing written.
+   Emits i hws: exactly the little-endian bytes of hws.  Rejects d: the diagnostic d at the statement's position is pushed;
+   unknown mnemonic / encoder refused the converted instruction: result Fatal, no bytes; a converter refused: the placeholder
+   on top of the diagnostic (the statement is treated like a deferred one).  Defers c: the placeholder *)
+Theorem C04_outcome_is_context : forall dbg fs inc st s e name args,
+  SegProofs.Inv st -> CtxNoPanic.ev_ok st -> CtxModel.active st = CtxModel.Active s -> e_val e = EInstruction name args ->
+  2 <= CtxSeg.s_max s - CtxSeg.blen s ->
+  let file := CtxModel.curr_name st in let line := e_line e in let col := e_col e in let addr := CtxSeg.curr_addr s in
+  match stmt_outcome (CtxModel.instr_ev st) true addr name args with
+  | Emits i hws => CtxModel.step dbg fs inc st e = InstrOutcomeSpec.place st s file line col (le_bytes hws)
+  | Rejects d =>
+      let st1 := CtxModel.push_error_in st file line col (CtxModel.KInstr d) in
+      ((template name = None \/ exists i a, assemble_stmt (CtxModel.instr_ev st) true addr name args = COk i a) /\
+       CtxModel.step dbg fs inc st e = CtxModel.Ret (Some CtxModel.Fatal) st1)
+      \/ exists t a, template name = Some t /\ assemble_args (CtxModel.instr_ev st) true addr t (mkAst args 0) = CDiag d a /\
+           CtxModel.step dbg fs inc st e
+             = InstrOutcomeSpec.placeholder st1 s file line col (CtxModel.mkAI file line col addr (CtxModel.partial_instr t a) a)
+  | Defers c => exists t a, template name = Some t /\ assemble_args (CtxModel.instr_ev st) true addr t (mkAst args 0) = CDefer c a /\
+           CtxModel.step dbg fs inc st e
+             = InstrOutcomeSpec.placeholder st s file line col (CtxModel.mkAI file line col addr (CtxModel.partial_instr t a) a)
+  | Panics => False
+  end.
+Proof. exact InstrOutcome.outcome_is_context. Qed.
+
 Local Open Scope string_scope.
 Theorem C04_examples :
   regl (bytes_of_string "r13"%string) = Some SP /\ regl (bytes_of_string "Lr"%string) = Some LR /\ regl (bytes_of_string "R16"%string) = None /\
@@ -439,5 +615,34 @@ Theorem C04_examples :
   go "pop"%string [ASeq []] = Rejects DEncode /\ go "adcs"%string [r "r8"; r "r0"] = Rejects DEncode /\
   go "bx"%string [r "pc"] = Rejects DEncode /\ go "mrs"%string [r "sp"; r "apsr"] = Rejects DEncode /\
   go "b"%string [AConst 0x904] = Rejects DRange /\ go "bl"%string [AConst 0x1000103] = Rejects DAlignment /\
-  go "adr"%string [r "r8"; AConst 0x108] = Rejects DEncode /\ go "ldr"%string [r "r0"; AConst 0x106] = Rejects DAlignment.
+  go "adr"%string [r "r8"; AConst 0x108] = Rejects DEncode /\ go "ldr"%string [r "r0"; AConst 0x106] = Rejects DAlignment /\
+  (* from the CHARACTERS to the outcome: an accepted statement in an exotic spelling with a nested comment; rejected ones:
+     immediate range, value outside its type, operand count (both ways), register class *)
+  let out (s : string) := text_outcome lk false 0x100 (bytes_of_string s) in
+  out "sTr /* a /* nested */ c */ R1 , [ 0b10*2 + r13 ] ; // end"%string = Some (Emits (Str R1 SP (Imm 4)) [0x9101]) /\
+  out "Add Sp, r13, ((0x1FC)) /* 508 */;"%string = Some (Emits (Add false SP SP (Imm 508)) [0xB07F]) /\
+  out "Add Sp, r13, ((0x1FC)) + 4 /* 512 */;"%string = Some (Rejects DEncode) /\
+  out "movs r0, 0x100;"%string = Some (Rejects DEncode) /\ out "UDF.w 0x10000 ;"%string = Some (Rejects DValueRange) /\
+  out "wfi r0;"%string = Some (Rejects DTooMany) /\ out "movs r0;"%string = Some (Rejects DNotEnough) /\
+  out "adcs r8, R0;"%string = Some (Rejects DEncode) /\ out "bx PC;"%string = Some (Rejects DEncode) /\
+  out "beq 0x204;"%string = Some (Rejects DRange) /\ out "movs r0, 1"%string = None /\
+  (* the Context: active segment at 0x100 with room for 16 bytes, statement at line 3, column 5 of the file f.  Observed:
+     (result, bytes of the segment, diagnostics newest first, number of scheduled tasks) *)
+  let st0 := CtxModel.mkState MapModel.map_new (CtxModel.Active (CtxSeg.mkSeg 0x100 [] 16)) [] (Some []) [] (Some []) []
+                              [bytes_of_string "f"] (bytes_of_string "f") in
+  let run name args :=
+    match CtxModel.step false (fun _ => None) (fun st _ _ => CtxModel.Ret None st) st0
+                        (mkElement 3 5 (EInstruction (bytes_of_string name) args)) with
+    | CtxModel.Ret res st' =>
+        Some (res, match CtxModel.active st' with CtxModel.Active s => CtxSeg.s_buf s | _ => [] end,
+              map (fun d => (CtxModel.d_line d, CtxModel.d_col d, CtxModel.d_class d)) (CtxModel.errors st'),
+              match CtxModel.local_tasks st' with Some l => List.length l | None => 99%nat end)
+    | _ => None
+    end in
+  run "movs" [r "r0"; AConst 255] = Some (None, [0xFF; 0x20], [], 0%nat) /\
+  run "movs" [r "r0"; AConst 256] = Some (Some CtxModel.Fatal, [], [(3, 5, CtxModel.KInstr DEncode)], 0%nat) /\
+  run "wfi" [r "r0"] = Some (None, [0xBE; 0xBE], [(3, 5, CtxModel.KInstr DTooMany)], 1%nat) /\
+  run "adcs" [r "r8"; AConst 1]
+    = Some (Some CtxModel.Fatal, [], [(3, 5, CtxModel.KInstr DEncode); (3, 5, CtxModel.KInstr DArgType)], 0%nat) /\
+  run "movs" [r "r0"; r "later"] = Some (None, [0xBE; 0xBE], [], 1%nat).
 Proof. vm_compute. repeat split. Qed.
